@@ -262,6 +262,10 @@ class FlexiblePaxosNode(Entity):
 
         if ballot_number not in self._phase1_responses:
             return []
+        if self._current_ballot != Ballot(ballot_number, self.name):
+            # This candidacy has been overtaken (a higher ballot was adopted
+            # since): its late promises must not make this node lead.
+            return []
 
         self._phase1_responses[ballot_number].append(
             {
